@@ -25,7 +25,7 @@ func vVariant() (k, maxPayload, mode, B int) {
 		}
 		return k, 2, 0, 16
 	case 1:
-		return k - 1, 2, []int{1, 3}[vChoose("mode", 2)], 16
+		return k - 1, 2, []int{1, 3, 4}[vChoose("mode", 3)], 16
 	default:
 		return k - 1, 2, 0, 1 + vChoose("B", 2)
 	}
